@@ -178,6 +178,8 @@ class SolverStats:
 
 
 _STATS = SolverStats()
+_PARTIAL = {}
+SMT_TIMEOUT_S = 15.0        # set per exploration (per_path_s / 2)
 _INSTALLED = False
 
 
@@ -190,8 +192,44 @@ def _install_accounting():
     from crosshair import statespace as ss
     orig = ss.solver_is_sat
 
+    # z3's `timeout` is wall-clock and soft: one hard query can overrun it by an hour.  A watchdog thread interrupts
+    # the solver context when a single check has run for 3x its timeout + 10 s; the check then comes back `unknown`.
+    import threading
+    cur = dict(t0=None, limit=None)      # no z3 object may be referenced from the watchdog thread
+
+    def watchdog():
+        while True:
+            time.sleep(0.5)
+            t0, lim = cur["t0"], cur["limit"]
+            if t0 is not None and time.perf_counter() - t0 > lim:
+                # The cell cannot continue past a
+                # wedged solver call: hand what was explored so far to the parent, marked inconclusive, and exit.
+                conn, cell, res = _PARTIAL.get("conn"), _PARTIAL.get("cell"), _PARTIAL.get("res")
+                if conn is not None and cell is not None:
+                    try:
+                        out = dict(res) if res else _stalled(cell, "")
+                        out["exhausted"] = False
+                        out["unknown"] = out.get("unknown", 0) + 1
+                        out.setdefault("unknown_where", [])
+                        out["unknown_where"] = ["solver call still running after %.0fs (soft timeout %.0fs): cell abandoned"
+                                                % (time.perf_counter() - t0, SMT_TIMEOUT_S)] + list(out["unknown_where"])[:3]
+                        out["sites"] = sorted(_PARTIAL.get("sites") or ())
+                        out.setdefault("queries", _STATS.queries)
+                        out.setdefault("solver_s", round(_STATS.seconds, 2))
+                        out.setdefault("cpu_s", round(time.process_time(), 1))
+                        out["cell"] = dict(module=cell.module, factory=cell.factory, params=enc(cell.params))
+                        out["twin_refuted"] = True if out.get("witnesses", 0) or out.get("violations") else None
+                        conn.send(out)
+                        conn.close()
+                    finally:
+                        os._exit(0)
+                cur["t0"] = None
+    threading.Thread(target=watchdog, daemon=True).start()
+
     def counted(solver, *exprs):
         t0 = time.perf_counter()
+        cur["limit"] = 3.0 * SMT_TIMEOUT_S + 10.0
+        cur["t0"] = t0
         try:
             return orig(solver, *exprs)
         except ss.UnknownSatisfiability:
@@ -205,6 +243,7 @@ def _install_accounting():
                     f.write("\n(check-sat)\n")
             raise
         finally:
+            cur["t0"] = None
             _STATS.queries += 1
             _STATS.seconds += time.perf_counter() - t0
 
@@ -317,6 +356,11 @@ def explore(fn, types, *, budget_s=60.0, per_path_s=10.0, stubs=None,
                ignored=0, violations=[], errors=[], witnesses=0, reached=0,
                samples=[], unknown_where=[], decisions=0)
     sites = set()
+    if not twin:
+        _PARTIAL["res"] = res
+        _PARTIAL["sites"] = sites
+    global SMT_TIMEOUT_S
+    SMT_TIMEOUT_S = per_path_s / 2
     t_start = time.process_time()
     w_start = time.time()
     stub_cm = stubs if stubs is not None else contextlib.nullcontext
@@ -527,21 +571,64 @@ def _run_cell(cell):
                     samples=[], queries=0, solver_s=0.0, sites=[], decisions=0, cpu_s=0, wall_s=0)
 
 
+def _stalled(cell, why):
+    return dict(name=cell.name, cell=dict(module=cell.module, factory=cell.factory, params=enc(cell.params)),
+                exhausted=False, paths=0, confirmed=0, unknown=1, ignored=0, violations=[], errors=[],
+                witnesses=0, reached=0, samples=[], queries=0, solver_s=0.0, sites=[], decisions=0, cpu_s=0, wall_s=0,
+                unknown_where=[why])
+
+
+def _child(cell, conn):
+    _PARTIAL["conn"] = conn
+    _PARTIAL["cell"] = cell
+    try:
+        conn.send(_run_cell(cell))
+    finally:
+        conn.close()
+
+
 def run_cells(cells, jobs=16):
+    """One forked process per cell, at most `jobs` at a time, longest budget first.  A worker that outlives its hard
+    deadline (a solver call that ignores every timeout) is killed and its cell is reported inconclusive."""
     import multiprocessing as mp
+    from multiprocessing.connection import wait
     if not cells:
         return []
     jobs = max(1, min(jobs, len(cells)))
-    if jobs == 1:
+    if jobs == 1 and os.environ.get("VERIF_INPROC"):
         return [_run_cell(c) for c in cells]
     ctx = mp.get_context("fork")
-    # longest first
     order = sorted(range(len(cells)), key=lambda i: -cells[i].budget_s)
-    with ctx.Pool(jobs, maxtasksperchild=1) as pool:
-        outs = pool.map(_run_cell, [cells[i] for i in order], chunksize=1)
     res = [None] * len(cells)
-    for i, o in zip(order, outs):
-        res[i] = o
+    running = {}          # conn -> (index, process, deadline)
+    pending = list(order)
+    while pending or running:
+        while pending and len(running) < jobs:
+            i = pending.pop(0)
+            c = cells[i]
+            rd, wr = ctx.Pipe(duplex=False)
+            p = ctx.Process(target=_child, args=(c, wr), daemon=True)
+            p.start()
+            wr.close()
+            hard = 3.0 * c.budget_s + 6.0 * c.per_path_s + 300.0
+            running[rd] = (i, p, time.time() + hard)
+        ready = wait(list(running), timeout=1.0)
+        for rd in ready:
+            i, p, _dl = running.pop(rd)
+            try:
+                res[i] = rd.recv()
+            except (EOFError, OSError):
+                res[i] = _stalled(cells[i], "worker died without a result (exit code %r)" % (p.exitcode,))
+            rd.close()
+            p.join(5)
+        now = time.time()
+        for rd, (i, p, dl) in list(running.items()):
+            if now > dl:
+                running.pop(rd)
+                p.kill()
+                p.join(5)
+                rd.close()
+                res[i] = _stalled(cells[i], "worker killed at its hard deadline: a solver call ignored its timeout")
     return res
 
 
